@@ -85,6 +85,7 @@ def run(check):
         from .c02 import depth_rule
         depth_rule(c, M.embed(), 'C08.R5')
     check.run_rule('C08.R5b', r5b)
+    check.run_rule('C08.R5f', lambda c: rule_forwarders_accumulate(c, 'C08.R5'))
     check.run_rule('C08.R6', lambda c: rule_direct_concat(c, 'C08.R6'))
     check.run_rule('C08.R7', lambda c: rule_wrapper_swap(c, 'C08.R7'))
 
@@ -107,3 +108,72 @@ def run(check):
     check.run_rule('C08.R2c', r2c)
     from ..rules_classes import rule_replace_restricts_sources
     check.run_rule('C08.R8', lambda c: rule_replace_restricts_sources(c, 'C08.R8'))
+
+
+def rule_forwarders_accumulate(check, rule):
+    """C08.R5f (round 9, C08-u): the embedded signature is one step further than *whichever* callable of the outer
+    signature owns a star parameter it goes through.  `_embed` collects those owners from the outer map (one feed per
+    forwarded star) into the collection the `<depth of owner> + 1` comprehension ranges over.  Each feed after the
+    first must add to that collection; a feed that rebinds it drops the owners of the other star, and when *args is
+    owned by a deeper callable than **kwargs the embedded callable is reported no deeper than the one that calls it."""
+    from ..rules_alias import site_of
+    fi = check.repo.func('_signatures:_embed')
+    check.analysed(fi)
+    coll = None
+    for comp in [x for x in ast.walk(fi.node) if isinstance(x, (ast.ListComp, ast.GeneratorExp, ast.SetComp))]:
+        if isinstance(comp.elt, ast.BinOp) and isinstance(comp.elt.op, ast.Add) and 'depths' in norm(comp.elt) \
+                and isinstance(comp.generators[0].iter, ast.Name):
+            coll = comp.generators[0].iter.id
+    # (mutant sweep 5) the comprehension's filter keeps the owners that *have* a depth: `if f not in depths` subscripts the
+    # map with exactly the keys it lacks (KeyError) and never adds the step for those it has
+    for comp in [x for x in ast.walk(fi.node) if isinstance(x, (ast.ListComp, ast.GeneratorExp, ast.SetComp))]:
+        if isinstance(comp.elt, ast.BinOp) and isinstance(comp.elt.op, ast.Add) and 'depths' in norm(comp.elt):
+            subs = [x for x in ast.walk(comp.elt) if isinstance(x, ast.Subscript)]
+            for cond in comp.generators[0].ifs:
+                if isinstance(cond, ast.Compare) and len(cond.ops) == 1 and isinstance(cond.ops[0], ast.NotIn) and any(
+                        norm(x.value) == norm(cond.comparators[0]) and norm(x.slice) == norm(cond.left) for x in subs):
+                    check.violation(rule, site_of(fi, cond), 'the depth of a forwarding callable is looked up only when the map lacks it (`%s`): KeyError, '
+                                    'and no step is added for the owners that have a depth' % norm(cond), key='%s|forwarders-filter' % fi.key,
+                                    witness="embed(embed(p, q), r).sources['+depths'][r_func] must be 2")
+    key = '%s|forwarders-accumulate' % fi.key
+    if coll is None:
+        check.holds(rule, site_of(fi, fi.node), 'no named collection of forwarding callables (decided by the depth arithmetic rule alone)', key=key,
+                    nontrivial=False)
+        return
+
+    def is_feed(v):
+        return any(isinstance(x, ast.Call) and isinstance(x.func, ast.Attribute) and x.func.attr in ('pop', 'get') for x in ast.walk(v)) \
+            or any(isinstance(x, ast.Subscript) and 'src' in norm(x.value) for x in ast.walk(v))
+
+    def accumulates(v):
+        for x in ast.walk(v):
+            if isinstance(x, ast.BinOp) and isinstance(x.op, (ast.Add, ast.BitOr)) and any(
+                    isinstance(y, ast.Name) and y.id == coll for y in ast.walk(x.left)) | any(
+                    isinstance(y, ast.Name) and y.id == coll for y in ast.walk(x.right)):
+                return True
+            if isinstance(x, ast.Starred) and isinstance(x.value, ast.Name) and x.value.id == coll:
+                return True
+            if isinstance(x, ast.Call) and norm(x.func).split('.')[-1] in ('chain', 'union') and any(
+                    isinstance(y, ast.Name) and y.id == coll for a in x.args for y in ast.walk(a)):
+                return True
+        return False
+    feeds = []
+    for st in sorted([x for x in ast.walk(fi.node) if isinstance(x, (ast.Assign, ast.AugAssign, ast.Expr))], key=lambda x: (x.lineno, x.col_offset)):
+        if isinstance(st, ast.Assign) and any(isinstance(t, ast.Name) and t.id == coll for t in st.targets) and is_feed(st.value):
+            feeds.append((st, accumulates(st.value)))
+        elif isinstance(st, ast.AugAssign) and isinstance(st.target, ast.Name) and st.target.id == coll and is_feed(st.value):
+            feeds.append((st, True))
+        elif isinstance(st, ast.Expr) and isinstance(st.value, ast.Call) and isinstance(st.value.func, ast.Attribute) \
+                and isinstance(st.value.func.value, ast.Name) and st.value.func.value.id == coll \
+                and st.value.func.attr in ('extend', 'append', 'update', 'add') and is_feed(st.value):
+            feeds.append((st, True))
+    bad = [st for st, acc in feeds[1:] if not acc]
+    if bad:
+        check.violation(rule, site_of(fi, bad[0]), '`%s` rebinds the collection of forwarding callables %r that an earlier feed (line %d) filled: the '
+                        'owners of the other forwarded star no longer count, and the embedded callable can be reported no deeper than a callable '
+                        'that forwards to it' % (norm(bad[0])[:70], coll, feeds[0][0].lineno), key=key,
+                        witness="o = embed(s('*args, **kwargs') of F0, s('a, *args') of F1, use_varkwargs=False); embed(o, s('x, *, y') of X): "
+                                "depths must be F0:0 F1:1 X:2")
+    else:
+        check.holds(rule, site_of(fi, feeds[0][0] if feeds else fi.node), '%d feed(s) of %r, every one after the first adds to it' % (len(feeds), coll), key=key)
+    check.floor(rule, 'feeds of the forwarding-callables collection', len(feeds), 1)
